@@ -483,4 +483,141 @@ theorem setDim_WF {a r : Poly} (ha : a.WF) {d : Nat} (h : a.setDim d = .ok r) : 
   · subst hd; rw [setDim_err] at h; cases h
   · rw [setDim_spec a (Nat.pos_of_ne_zero hd)] at h; cases h; exact fit_WF ha d
 
+
+/-- refinement: splitting to element size k' (any k' > 0, k' ≠ k; ragged last piece when k' ∤ k) is the re-chunking of the
+    coefficient sequence of Spec.Poly -/
+theorem split_spec {a : Poly} (hk : 0 < a.size) (ha : a.WF) {k' : Nat} (hk' : 0 < k') (hne : k' ≠ a.size) (be : Bool) :
+    a.split k' be = .ok ⟨(Spec.Poly.rechunk a.size k' be (a.ival.map Int.toNat)).map Int.ofNat, k'⟩ :=
+  split_spec' hk ha hk' hne be
+
+/-- splitting to the element size it already has returns the vector itself -/
+theorem split_same (a : Poly) (be : Bool) : a.split a.size be = .ok a := split_same' a be
+
+/-- positional value of the re-chunked sequence: element j is digit (j mod q) of coefficient (j div q), little-endian;
+    digit (q−1−(j mod q)) for big-endian -/
+theorem rechunk_getD (k k' : Nat) (be : Bool) (l : List Nat) (j : Nat)
+    (hq : 0 < Spec.Poly.pieces k k') (hj : j < l.length * Spec.Poly.pieces k k') :
+    (Spec.Poly.rechunk k k' be l).getD j 0 =
+      l.getD (j / Spec.Poly.pieces k k') 0 /
+        2 ^ (k' * (if be then Spec.Poly.pieces k k' - 1 - j % Spec.Poly.pieces k k' else j % Spec.Poly.pieces k k')) % 2 ^ k' := by
+  have hdiv : j / Spec.Poly.pieces k k' < l.length := by
+    apply Nat.div_lt_of_lt_mul; rw [Nat.mul_comm]; exact hj
+  have hmod : j % Spec.Poly.pieces k k' < Spec.Poly.pieces k k' := Nat.mod_lt _ hq
+  rw [List.getD_eq_getElem?_getD, List.getD_eq_getElem?_getD, Spec.Poly.rechunk,
+    flatMap_getElem?_const _ hq (by intro x; cases be <;> simp [digits_length])]
+  rw [List.getElem?_eq_getElem hdiv]
+  simp only [Option.bind_some]
+  cases be
+  · simp [Spec.Poly.digits, hmod]
+  · simp only [if_true, Spec.Poly.digits]
+    rw [List.getElem?_reverse (by simpa using hmod)]
+    simp only [List.length_map, List.length_range]
+    rw [List.getElem?_map, List.getElem?_range (by omega)]
+    simp
+
+/-- `a.split(k')` re-chunks every coefficient: the result has element size k', dimension dim(a)·q with
+    q = ⌈k/k'⌉ pieces per coefficient (q = k/k' when k' ∣ k), and coefficient j is
+    (a[j div q] >> (k'·(j mod q))) mod 2^k'   (little-endian), with j mod q replaced by q−1−(j mod q) for big-endian -/
+theorem split_coeff {a r : Poly} (hk : 0 < a.size) (ha : a.WF) {k' : Nat} (hk' : 0 < k') (hne : k' ≠ a.size) {be : Bool}
+    (h : a.split k' be = .ok r) :
+    r.size = k' ∧ r.dim = a.dim * Spec.Poly.pieces a.size k' ∧
+    ∀ j, j < a.dim * Spec.Poly.pieces a.size k' →
+      (r.e j).toNat = ((a.e (j / Spec.Poly.pieces a.size k')).toNat >>>
+        (k' * (if be then Spec.Poly.pieces a.size k' - 1 - j % Spec.Poly.pieces a.size k' else j % Spec.Poly.pieces a.size k'))) % 2 ^ k' := by
+  rw [split_spec hk ha hk' hne be] at h
+  cases h
+  refine ⟨rfl, by simp [dim, rechunk_length], ?_⟩
+  intro j hj
+  rw [e_map_ofNat, rechunk_getD _ _ _ _ _ (pieces_pos hk hk') (by simpa [dim] using hj), Nat.shiftRight_eq_div_pow]
+  congr 2
+  simp only [e, List.getD_eq_getElem?_getD, List.getElem?_map]
+  cases a.ival[j / Spec.Poly.pieces a.size k']? <;> simp
+
+/-- `pack(a)`: the little-endian bytes (⌈k/8⌉ of them) of every coefficient, concatenated; the whole string reversed for '>L' -/
+theorem pack_spec {a : Poly} (hk : 0 < a.size) (ha : a.WF) (be : Bool) :
+    a.pack be = .ok (let s := a.ival.flatMap fun x => Py.leBytes ((a.size + 7) / 8) x.toNat
+                     if be then s.reverse else s) := by
+  obtain ⟨p, hp, hval⟩ := split8_ival hk ha
+  simp only [pack, hp, bind, Except.bind, pure, Except.pure, hval, Spec.Poly.rechunk, List.flatMap_map]
+  have : (a.ival.flatMap fun x => if false = true then (Spec.Poly.digits a.size 8 x.toNat).reverse
+        else Spec.Poly.digits a.size 8 x.toNat) = a.ival.flatMap fun x => Py.leBytes ((a.size + 7) / 8) x.toNat := by
+    apply flatMap_congr'; intro x _; simp [digits_eq_leBytes]
+  rw [this]
+
+/-- little-endian re-chunking to a divisor k' of k: q = k/k' pieces per coefficient,
+    result[j] = (a[j / q] >> (k'·(j mod q))) mod 2^k' -/
+theorem split_spec_le {a r : Poly} (hk : 0 < a.size) (ha : a.WF) {k' : Nat} (hk' : 0 < k') (hd : k' ∣ a.size)
+    (h : a.split k' false = .ok r) :
+    r.size = k' ∧ r.dim = a.dim * (a.size / k') ∧
+    ∀ j, j < a.dim * (a.size / k') →
+      (r.e j).toNat = ((a.e (j / (a.size / k'))).toNat >>> (k' * (j % (a.size / k')))) % 2 ^ k' := by
+  by_cases hne : k' = a.size
+  · subst hne
+    rw [split_same] at h; cases h
+    rw [Nat.div_self hk]
+    refine ⟨rfl, by simp, ?_⟩
+    intro j _
+    have := WF_e ha hk j
+    simp only [Nat.div_one, Nat.mod_one, Nat.mul_zero, Nat.shiftRight_zero]
+    exact (Nat.mod_eq_of_lt (toNat_lt_pow this.1 this.2)).symm
+  · have := split_coeff hk ha hk' hne h
+    rw [pieces_dvd hk' hd] at this
+    simpa using this
+
+/-- big-endian re-chunking to a divisor k' of k: the pieces of every coefficient come most significant first -/
+theorem split_spec_be {a r : Poly} (hk : 0 < a.size) (ha : a.WF) {k' : Nat} (hk' : 0 < k') (hd : k' ∣ a.size)
+    (hne : k' ≠ a.size) (h : a.split k' true = .ok r) :
+    r.size = k' ∧ r.dim = a.dim * (a.size / k') ∧
+    ∀ j, j < a.dim * (a.size / k') →
+      (r.e j).toNat = ((a.e (j / (a.size / k'))).toNat >>> (k' * (a.size / k' - 1 - j % (a.size / k')))) % 2 ^ k' := by
+  have := split_coeff hk ha hk' hne h
+  rw [pieces_dvd hk' hd] at this
+  simpa using this
+
+theorem split_WF {a r : Poly} (ha : a.WF) {k' : Nat} {be : Bool} (h : a.split k' be = .ok r) : r.WF := by
+  unfold split at h
+  split at h
+  · cases h; exact ha
+  · simp only [bind, Except.bind, pure, Except.pure] at h
+    split at h
+    · cases h
+    · cases h
+      exact WF_map_red' _ k' (fun b : Bits => Int.ofNat b.ival)
+
+/-- over Z the coefficients are Python ints and cannot be split: only the empty vector gets through -/
+theorem split_Z {a : Poly} (hk : a.size = 0) {k' : Nat} (hne : k' ≠ 0) (be : Bool) :
+    (a.ival = [] → a.split k' be = .ok ⟨[], k'⟩) ∧ (a.ival ≠ [] → ∃ m, a.split k' be = .error m) := by
+  constructor
+  · intro he
+    simp [split, hk, hne, he, bind, Except.bind, pure, Except.pure]
+  · intro he
+    cases hl : a.ival with
+    | nil => exact absurd hl he
+    | cons x xs => exact ⟨"AttributeError:int has no split", by simp [split, hk, hne, hl, bind, Except.bind]⟩
+
+/-- `a // b` appends: dimension = sum, coefficient i is a's for i < dim a and b's after -/
+theorem concat_spec (a b : Poly) :
+    (a.concat b).ival = a.ival ++ b.ival ∧ (a.concat b).size = a.size ∧ (a.concat b).dim = a.dim + b.dim ∧
+    ∀ i, (a.concat b).e i = if i < a.dim then a.e i else b.e (i - a.dim) := by
+  refine ⟨rfl, rfl, by simp [concat, dim], ?_⟩
+  intro i
+  simp only [concat, e, dim, List.getD_eq_getElem?_getD]
+  split
+  · rename_i h; rw [List.getElem?_append_left h]
+  · rename_i h; rw [List.getElem?_append_right (Nat.le_of_not_lt h)]
+
+theorem concat_WF {a b : Poly} (ha : a.WF) (hb : b.WF) (hs : a.size = b.size) : (a.concat b).WF := by
+  apply WF_of_forall
+  intro x hx
+  by_cases hk : a.size = 0
+  · exact Or.inl hk
+  · right
+    rcases List.mem_append.mp hx with hx | hx
+    · rcases ha with ha | ha
+      · exact absurd ha hk
+      · exact ha x hx
+    · rcases hb with hb | hb
+      · exact absurd (hs.trans hb) hk
+      · rw [hs]; exact hb x hx
+
 end Proofs.C16
